@@ -219,6 +219,32 @@ def run(chk):
                     chk.smt(f"{pt}.row{a}.degree_1", hyp, T.cmp("==", lhs, tgy[a]), fn=fng, replay=_shortcut_replay(log), goal="sum_j M[a,j] x_j == t_a on the shortcut path (identity matrix) -- requires t_a == x_a")
                 else:
                     chk.smt(f"{pt}.row{a}.degree_1", hyp, T.cmp("==", lhs, tgy[a]), fn=fng, replay=rp, goal="sum_j M[a,j] x_j == t_a")
+    # ---- 6. the default dispatcher (mode_N=True) evaluates in x-space like the mode_N=False one (proved above), and keeps its N-space callable -------------------
+    import mpmath as _mp
+    rp6 = script(_MODE_N_REPLAY, kind="mode_n_oracle")
+    for log in (False,):     # linear grids in the engine (concrete logarithmic nodes would need an ordering of ln atoms); the native oracle of this clause also runs a logarithmic grid
+        nodes = [Q(1, 10), Q(1, 4), Q(1, 2), Q(3, 4), Q(1)]
+        pts = nodes + [(a + b) / 2 for a, b in zip(nodes, nodes[1:])]
+        for dd in (1, 2, 3):
+            tag6 = f"C34.mode_N[{'log' if log else 'lin'},d={dd}]"
+            try:
+                dN = InterpolatorDispatcher(XGrid(list(nodes), log=log), dd, mode_N=True)
+                dX = InterpolatorDispatcher(XGrid(list(nodes), log=log), dd, mode_N=False)
+            except Exception as e:  # noqa: BLE001
+                chk.fail(f"{tag6}.build", f"{type(e).__name__}: {e}", fn=fnd, replay=rp6)
+                continue
+            bad, restored = [], True
+            for j, (bN, bX) in enumerate(zip(dN, dX)):
+                before = bN.callable
+                for x in pts:
+                    got = complex(T.evalmp(T.lift(bN.evaluate_x(x)), {}, 40))
+                    want = complex(T.evalmp(T.lift(bX.evaluate_x(x)), {}, 40))
+                    if abs(got - want) > 1e-30:
+                        bad.append(f"p_{j}({x}) = {got.real:.6g} with mode_N=True, {want.real:.6g} with mode_N=False")
+                restored = restored and bN.callable is before
+            chk.ground(f"{tag6}.evaluate_x_as_in_x_space", not bad, fn="eko.interpolation:BasisFunction.evaluate_x", replay=rp6, backend="exact-eval",
+                       goal="evaluate_x of the default (N-space) dispatcher == evaluate_x of the x-space dispatcher at every node (x_min and 1 included) and mid-point, every basis function", detail="; ".join(bad[:3]) or None)
+            chk.ground(f"{tag6}.callable_restored", restored, fn="eko.interpolation:BasisFunction.evaluate_x", replay=rp6, goal="evaluate_x leaves the N-space callable in place (frame)")
     chk.extra["exhaustive"] = False
 
 
@@ -228,6 +254,22 @@ def _expect_value_error(thunk):
     except ValueError:
         return True
     return False
+
+
+_MODE_N_REPLAY = '''
+def replay():
+    from eko import interpolation
+    out = []
+    for log, nodes in ((True, [1e-2, 0.1, 0.3, 0.6, 1.0]), (False, [0.1, 0.25, 0.5, 0.75, 1.0])):
+        for d in (1, 2, 3):
+            dN = interpolation.InterpolatorDispatcher(interpolation.XGrid(nodes, log=log), d, mode_N=True)
+            dX = interpolation.InterpolatorDispatcher(interpolation.XGrid(nodes, log=log), d, mode_N=False)
+            pts = nodes + [(a + b) / 2 for a, b in zip(nodes, nodes[1:])]
+            for j, (bN, bX) in enumerate(zip(dN, dX)):
+                for x in pts:
+                    if abs(bN.evaluate_x(x) - bX.evaluate_x(x)) > 1e-12: out.append(f"log={log} d={d}: p_{j}({x}) = {bN.evaluate_x(x):.6g} with mode_N=True, {bX.evaluate_x(x):.6g} with mode_N=False")
+    return bool(out), "; ".join(out[:3]) if out else "mode_N=True evaluates in x-space like mode_N=False"
+'''
 
 
 def _shortcut_replay(log):
